@@ -457,6 +457,9 @@ def run(rep: Report, tier: str) -> None:
     # ---- R10.12: dataset-level analytic operators deliver the measures semantic analysis declares ----
     rep.rule("R10.12", "dataset-level analytic operators: the measures Analytic.validate declares == the measure columns of the generated SELECT, for one and two operand measures")
     analytic_measures_agree(P, rep, "R10.12")
+    # ---- R10.13: isnull over a mono-measure dataset delivers the measure under the declared name ----
+    rep.rule("R10.13", "isnull over a dataset with one measure: measure name declared by Unary.validate == alias delivered by visit_UnaryOp, per measure type")
+    isnull_measure_name_agrees(P, rep, "R10.13")
     rep.assumptions = ["structure objects are changed only through attribute stores / dict mutation of .components (no setattr/__dict__ tricks: none exist in the package)",
                        "values, uniqueness and nullability of the DATA are produced by DuckDB and are not decided here"]
 
@@ -513,3 +516,62 @@ def analytic_measures_agree(P: Program, rep: Report, rule: str) -> None:
                                 f"{cls_name.lower()}(DS_1 over (partition by Id_1)) with {nmeas} measure(s): semantic analysis declares the measures {declared}, the generated SELECT delivers "
                                 f"{delivered}: the fetch projects the declared components, so a measure that is not delivered under its declared name is missing from the returned data"))
     rep.floor(f"{rule} analytic operator x measure-count cells", n, 10)
+
+
+def isnull_measure_name_agrees(P: Program, rep: Report, rule: str) -> None:
+    """isnull over a dataset with one measure: the measure name Unary.validate declares (bool_var when the measure's type changes, the measure's
+    own name for a Boolean measure) == the alias the SELECT of visit_UnaryOp delivers, for a Boolean, a Number and a String measure."""
+    import re as _re
+    from sa import structmodel as _sm
+    from sa.e6 import ClassVal as _CV, Interp as _I, Raised as _R, Unmodelled as _U
+    M = _sm.Model(P)
+    fv = P.func("vtlengine.Operators.Unary.validate")
+    ft = P.func(_sm.TRQ + ".visit_UnaryOp")
+    tok = _I(P).eval(ast.parse("tokens.ISNULL", mode="eval").body, {}, ft)
+    dataset_kind = _I(P).eval(ast.parse("_DATASET", mode="eval").body, {}, ft)
+    n = 0
+    for tname in ("Boolean", "Number", "String"):
+        ds = M.ds("DS_1", ["Id_1"], ["Me_1"])
+        ds.components["Me_1"].data_type = _CV(f"vtlengine.DataTypes.{tname}")
+        ext_v = {"Dataset": M.mk_dataset, "isinstance": _sm._isinstance, "VirtualCounter._new_ds_name": lambda: "__VDS__",
+                 "copy": lambda x: _sm.MComp(x.name, x.role, x.data_type, x.nullable) if isinstance(x, _sm.MComp) else x,
+                 "Component": lambda **kw: _sm.MComp(kw["name"], kw["role"], kw.get("data_type"), kw.get("nullable", True))}
+        try:
+            sem = _I(P, externals=ext_v, max_steps=40000).call(fv, {"operand": ds}, bound_cls=_CV("vtlengine.Operators.Comparison.IsNull"))
+            declared = sorted(k for k, c in sem.components.items() if c.role == M.roles["MEASURE"])
+        except _R as r:
+            declared = [f"<raises {getattr(r.exc, 'code', None)}>"]
+        except _U as e:
+            raise AnalysisError(f"{rule}: Unary.validate outside the evaluator's language (IsNull/{tname}): {e}")
+        ds2 = M.ds("DS_1", ["Id_1"], ["Me_1"])
+        ds2.components["Me_1"].data_type = _CV(f"vtlengine.DataTypes.{tname}")
+        out = M.ds("DS_r", ["Id_1"], declared if not declared[0].startswith("<") else [])
+        me = _sm.MTranspiler()
+        me.input_datasets = {"DS_1": ds2}
+        ext_t = {"self._get_node_type": lambda nd: dataset_kind, "self._get_dataset_structure": lambda nd: ds2, "self._get_dataset_sql": lambda nd: '"DS_1"', "self._get_output_dataset": lambda: out,
+                 "registry.sql": lambda op, *a, **k: f"({a[0]} IS NULL)", "quote_name": lambda x: f'"{x}"', "SQLBuilder": _sm.MBuilder, "isinstance": _sm._isinstance,
+                 "get_current_registry": lambda: None}
+        try:
+            b = _I(P, externals=ext_t, max_steps=40000).call(ft, {"self": me, "node": _sm.MNode("UnaryOp", op=tok, operand=_sm.MNode("VarID", value="DS_1"))})
+        except (_R, _U) as e:
+            raise AnalysisError(f"{rule}: visit_UnaryOp outside the evaluator's language (isnull/{tname}): {e}")
+        delivered = sorted(_re.findall(r'AS "([^"]+)"\s*$', c_)[0] for c_ in getattr(b, "cols", []) if _re.search(r'AS "([^"]+)"\s*$', c_))
+        # the structure an enclosing operator sees for isnull(DS_1) used as its operand
+        fs = P.func(_sm.SV + "._resolve_unaryop_structure")
+        try:
+            sv = _I(P, externals={"self._get_dataset_structure": lambda nd: ds2, "self._build_boolean_result_structure": lambda d: M.ds(d.name, d.get_identifiers_names(), ["bool_var"]),
+                                  "isinstance": _sm._isinstance}, max_steps=20000).call(fs, {"self": _sm.MSelf(), "node": _sm.MNode("UnaryOp", op=tok, operand=_sm.MNode("VarID", value="DS_1"))})
+            nested = sorted(sv.get_measures_names())
+        except (_R, _U) as e:
+            raise AnalysisError(f"{rule}: _resolve_unaryop_structure outside the evaluator's language (isnull/{tname}): {e}")
+        n += 1
+        rep.instance(rule, f"isnull/{tname}", nontrivial=True, sample={"measure_type": tname, "declared": declared, "delivered": delivered, "structure_as_operand": nested})
+        if declared == delivered and nested != delivered:
+            rep.add(Finding(rule, f"{rule}/isnull-as-operand/{tname}", fs.module.rel, fs.node.lineno, fs.qualname,
+                            f"isnull(DS_1) (single measure Me_1 of type {tname}) used as an operand: its SELECT delivers the measure as {delivered}, the structure the enclosing operator "
+                            f"resolves says {nested}: the enclosing operator references a column that does not exist"))
+        if declared != delivered:
+            rep.add(Finding(rule, f"{rule}/isnull/{tname}", ft.module.rel, ft.node.lineno, ft.qualname,
+                            f"isnull(DS_1) with the single measure Me_1 of type {tname}: semantic analysis declares the measure(s) {declared}, the generated SELECT delivers {delivered}: the fetch "
+                            f"projects the declared components, so the result comes back without its measure"))
+    rep.floor(f"{rule} isnull measure types", n, 3)
